@@ -3,6 +3,7 @@ import IrVerif.Drive.Clone
 import IrVerif.Drive.Kernel
 import IrVerif.Drive.Names
 import IrVerif.Drive.Pack
+import IrVerif.Drive.TensorLife
 import IrVerif.Drive.Passes
 import IrVerif.Drive.PassInfra
 import IrVerif.Drive.Writer
@@ -18,6 +19,8 @@ import IrVerif.Drive.Journal
 import IrVerif.Drive.Serde
 import IrVerif.Drive.Scope
 import IrVerif.Drive.SymExpr
+import IrVerif.Drive.SymExprSympy
+import IrVerif.Drive.Inline
 /-! Line protocol: one JSON request per line on stdin (`{"m": "<model>.<fn>", ...}`), one JSON
 answer per line on stdout (`{"err": ...}` for malformed requests).  Imports models only — never a
 proof file — so that nothing it links touches Mathlib. -/
@@ -25,12 +28,14 @@ open Lean IrVerif.Drive
 
 def handlers : List Handler := [
   IrVerif.Drive.SymExpr.handle,
+  IrVerif.Drive.SymExprSympy.handle,
   IrVerif.Drive.Scope.handle,
   IrVerif.Drive.Serde.handle,
   IrVerif.Drive.Clone.handle,
   IrVerif.Drive.Kernel.handle,
   IrVerif.Drive.Names.handle,
   IrVerif.Drive.Pack.handle,
+  IrVerif.Drive.TensorLife.handle,
   IrVerif.Drive.Passes.handle,
   IrVerif.Drive.PassInfra.handle,
   IrVerif.Drive.Writer.handle,
@@ -42,7 +47,8 @@ def handlers : List Handler := [
   IrVerif.Drive.AtomicSave.handle,
   IrVerif.Drive.Path.handle,
   IrVerif.Drive.Layout.handle,
-  IrVerif.Drive.Journal.handle
+  IrVerif.Drive.Journal.handle,
+  IrVerif.Drive.Inline.handle
 ]
 
 def dispatch (j : Json) : Except String Json := do
